@@ -129,3 +129,13 @@ LIFE_RULE = ("Lifecycle lab: the real runTracerouteOnce for udp, icmp, tcp-syn (
 PROPS["C10"] = dict(num=10, labs=["life", "par"], rule=LIFE_RULE + " " + PAR_RULE, nontrivial="any fault-injection case", trivial_classes=[],
     signatures={"10.1": "a handle was not closed exactly once, or was used after its close (also by a goroutine outliving the call)", "10.2": "the returned error does not wrap the injected cause", "10.3": "an error was returned together with a result, or neither", "10.4": "a SendProbe failure (also one that was in flight when the destination answer was processed) did not fail the run with its cause", "10.9": "the entry point panicked"},
     trusted_base=PAR_TRUSTED + ["fault injection happens at the Source/Sink seam; the real AF_PACKET / raw-socket code below it is not exercised"], assumptions=[])
+
+import vlib as _vlib
+PROPS["C14"] = dict(num=14, labs=[], rule="Access table regenerated from the Go source (tools/goextract/accesses.go: the four drivers' sender/receiver threads, the parallel engine, the multi-query aggregator, the reverse-DNS fan-out) checked against the lock discipline inside Coq; "
+    "plus the race lab: the harness built with -race runs the real parallel engine over each parallel-capable driver with replies (stale duplicates for TTLs 1, 7, 20) already queued while probes 1..40 are being sent over a wire that adds no synchronisation, "
+    "8+8 concurrently completing runs/probes through the real RunTraceroute, the reverse-DNS fan-out over 40 addresses, and the allocators from 8 goroutines.",
+    nontrivial="each scenario family of the race lab", trivial_classes=[],
+    signatures={"14.1": "the race detector reported a data race in the repository's code"},
+    extra=[("race", _vlib.race_lab), ("lockset", _vlib.lockset_pairs)],
+    trusted_base=["tools/goextract/accesses.go (syntactic lock regions, intra-package inlining; blind spots listed in DESIGN.md)", "Go's race detector (used only to exhibit a schedule, never as the proof)"],
+    assumptions=["sync.Mutex provides mutual exclusion; sync/atomic, channels, context, errgroup, WaitGroup are race-free by construction"])
